@@ -24,7 +24,7 @@ func (c05) ID() string { return "C05" }
 func (c05) Meta(tier string) engine.Meta {
 	return engine.Meta{
 		Level: "model_checking",
-		Rule: "UNTYPED enumeration (well- and ill-typed alike) of all terms of depth <= 1 over 12 atoms of 12 types and 30 constructors (operators, overloaded and polymorphic built-ins, subscripts, present / absent members, list / map / object literals incl. duplicate fields), all depth-2 terms with one nested operand (quick: nested operand well-typed; thorough: any), every single-position replacement of a sub-term of the well-typed small-alphabet programs by an atom of every other type, a variable of each of 16 types under 18 contexts, and five families of additional user overloads (mono vs poly, two matching polys, undetermined result variable, object-typed mono parameters in both field orders, overloads shadowing built-ins) registered in ALL k! orders (k<=4). Oracle: the reference checker's accept / reject and inferred type against types.Infer on the desugared tree and against Expr.Compile on two back ends; no accepted program may fail with a type error at run time. non-trivial = not a bare atom",
+		Rule: "UNTYPED enumeration (well- and ill-typed alike) of all terms of depth <= 1 over 12 atoms of 12 types and 30 constructors (operators, overloaded and polymorphic built-ins, subscripts, present / absent members, list / map / object literals incl. duplicate fields), all depth-2 terms with one nested operand (quick: nested operand well-typed; thorough: any), every single-position replacement of a sub-term of the well-typed small-alphabet programs by an atom of every other type, six homogeneity contexts ([x,y], map values, if, ==, union, get) over all pairs of 96 composite operands that repeat variables, a variable of each of 16 types under 23 contexts, and six families of additional user overloads (mono vs poly, two matching polys, undetermined result variable, object-typed mono parameters in both field orders, overloads shadowing built-ins) registered in ALL k! orders (k<=4). Oracle: the reference checker's accept / reject and inferred type against types.Infer on the desugared tree and against Expr.Compile on two back ends; no accepted program may fail with a type error at run time. non-trivial = not a bare atom",
 		Bound: "depth 2 with one nested operand; arity <= 3; k <= 4 extra overloads",
 		Assumptions: []string{
 			"⊥ (element type of [] / [:]) equals only itself, matches a bare type variable, and never equals a concrete parameter (README: bottom is only used for empty list / map)",
@@ -222,6 +222,13 @@ func overloadFamilies() []ovFamily {
 			{"h", []*gen.Ty{a}, gen.List(a), "poly-a-to-list"},
 			{"h", []*gen.Ty{gen.List(a)}, a, "poly-list-to-a"},
 		}, []*gen.Term{c("h", one), c("h", lst), c("h", empty), c("h", c("h", one)), gen.SubT(c("h", one), gen.NumT(0))}},
+		{"undetermined-nested", []sigDesc{
+			{"mk", []*gen.Ty{a}, gen.List(b), "poly-a-to-list-b"},
+			{"mk", []*gen.Ty{a}, a, "poly-a-to-a"},
+			{"mk", []*gen.Ty{a}, gen.Map(S, b), "poly-a-to-map-b"},
+			{"mk", []*gen.Ty{gen.List(a)}, gen.Obj(gen.F("f", a), gen.F("g", b)), "poly-list-to-obj-b"},
+		}, []*gen.Term{c("mk", one), gen.Infix("+", c("mk", one), one), gen.ListT(c("mk", one)), gen.ObjT([]string{"f"}, c("mk", gen.BoolT(true))),
+			c("mk", lst), gen.MemT(c("mk", lst), "f"), c("len", c("mk", str)), c("mk", empty)}},
 		{"object-mono", []sigDesc{
 			{"k", []*gen.Ty{tyOAB}, N, "mono-ab"},
 			{"k2", []*gen.Ty{tyOBA}, S, "mono-ba"},
@@ -306,6 +313,38 @@ func (c05) Generate(tier string, yield func(*engine.Case) bool) {
 	}
 	if !ok {
 		return
+	}
+	// ---- homogeneity contexts over pairs of composite operands that repeat a variable
+	{
+		vs := []*gen.Term{gen.VarT("l"), gen.VarT("ls"), gen.VarT("m"), gen.VarT("o"), gen.NumT(1), gen.StrT("a"), gen.ListT(gen.NumT(1)), gen.ListT(gen.StrT("s"))}
+		var comps []*gen.Term
+		for _, v := range vs {
+			for _, w := range vs {
+				comps = append(comps, gen.ObjT([]string{"a", "b"}, v, w))
+			}
+		}
+		for _, v := range vs[:4] {
+			for _, w := range vs[:4] {
+				comps = append(comps, gen.ListT(v, w), gen.MapT(gen.StrT("p"), v, gen.StrT("q"), w))
+			}
+		}
+		ctx := []func(x, y *gen.Term) *gen.Term{
+			func(x, y *gen.Term) *gen.Term { return gen.ListT(x, y) },
+			func(x, y *gen.Term) *gen.Term { return gen.MapT(gen.StrT("k"), x, gen.StrT("j"), y) },
+			func(x, y *gen.Term) *gen.Term { return gen.CallT("if", gen.BoolT(true), x, y) },
+			func(x, y *gen.Term) *gen.Term { return gen.Infix("==", gen.ListT(x), gen.ListT(y)) },
+			func(x, y *gen.Term) *gen.Term { return gen.CallT("union", gen.ListT(x), gen.ListT(y)) },
+			func(x, y *gen.Term) *gen.Term { return gen.CallT("get", gen.ListT(x), gen.NumT(0), y) },
+		}
+		for _, cf := range ctx {
+			for _, x := range comps {
+				for _, y := range comps {
+					if !emit("homogeneity", cf(x, y)) {
+						return
+					}
+				}
+			}
+		}
 	}
 	// ---- type-breaking mutation of well-typed programs
 	g, senv := smallGrammar()
